@@ -10,7 +10,8 @@ ops:
      -> {"stages":[{"nops":N,"from":i,"pos":{"coarse":c,"off":j,"len":L}|"end","files":{…}}…],
          "final":{"ok":true,"from":i,"updates":n-i,"state":n,"coarse":[…],"files":{…}} | {"ok":false,"error":"unpickle"}}
      run 1 (resume=r0) from the empty odir is killed after k1 fine operations, run 2 (resume=true) after k2, …; then a
-     run with resume=true that is not killed.  State = iteration counter (natSys).
+     run with resume=true that is not killed.  {"op":"sweep","proto":…,"n":3,"r0":false,"multi":[[a,k2,…],…]} -> {"coarse","fine","singles":[sim for every k],"multi":[…]}
+ State = iteration counter (natSys).
 -/
 
 def protoOf? (j : Json) : Option Proto :=
@@ -93,6 +94,25 @@ def handle (j : Json) : Json :=
     | some r0, some kills =>
       let (stages, fin) := simStages proto n r0 FS.empty kills []
       jObj [("stages", Json.arr stages.toArray), ("final", fin)]
+    | _, _ => jErr "bad-args"
+  | some "sweep", some proto, some n =>
+    -- everything for one configuration in one call: op sequence, ALL single kills, and multi-kills whose first kill point
+    -- is given modulo the number of fine operations
+    match fBool? j "r0", (field? j "multi").bind (listOf? natList?) with
+    | some r0, some multi =>
+      match run natSys proto r0 0 n FS.empty with
+      | .ok (ops, _) =>
+        let nf := ops.length
+        let simJ := fun (kills : List Nat) =>
+          let (stages, fin) := simStages proto n r0 FS.empty kills []
+          jObj [("kills", jNats kills), ("stages", Json.arr stages.toArray), ("final", fin)]
+        let singles := (List.range (nf + 1)).map (fun k => simJ [k])
+        let multis := multi.map (fun ks => match ks with
+          | a :: rest => simJ ((1 + a % (nf - 1)) :: rest)
+          | [] => simJ [])
+        jObj [("coarse", jList Json.str (coarse Path.name ops)), ("fine", jNat nf),
+              ("singles", Json.arr singles.toArray), ("multi", Json.arr multis.toArray)]
+      | .error _ => jErr "unpickle"
     | _, _ => jErr "bad-args"
   | _, _, _ => jErr "bad-op"
 
